@@ -4,6 +4,7 @@
 //! and only value octets -- taken from the single K-octet input `v` -- are symbolic.
 
 use crate::util::*;
+#[allow(unused_imports)]
 use crate::{vcheck, vskip};
 use cfdp_core::daemon::Report;
 use cfdp_core::pdu::*;
